@@ -6,6 +6,7 @@ import (
 	"encoding/hex"
 	"fmt"
 	"net"
+	"strconv"
 	"strings"
 	"sync/atomic"
 	"time"
@@ -80,7 +81,8 @@ func c08Run(c *Ctx, idx int, k c08Case) {
 	r := c.R
 	c.Step("c08 %s", k.key())
 	scenario := map[string]interface{}{"kind": "c08", "case": k}
-	cfg := px.BedConfig{Hosts: k.Hosts, NumConns: k.Conns, Keyspaces: []string{"ks1"}, KeepBodies: true, ReconnectBase: time.Millisecond, ReconnectMax: 3 * time.Millisecond, RefreshWindow: 30 * time.Millisecond}
+	cfg := px.BedConfig{Hosts: k.Hosts, NumConns: k.Conns, Keyspaces: []string{"ks1"}, KeepBodies: true, ReconnectBase: time.Millisecond, ReconnectMax: 3 * time.Millisecond, RefreshWindow: 30 * time.Millisecond,
+		MaxVersion: primitive.ProtocolVersionDse2}
 	if k.LateHost {
 		cfg.Unlisted = []int{k.Hosts}
 	}
@@ -236,6 +238,9 @@ func c08Run(c *Ctx, idx int, k c08Case) {
 			unprep++
 			waitingPrepare[e.Conn] = e
 		}
+		if e.K == "reply" && e.Outcome == "ProtocolError:decode" {
+			r.Violate(mon.Violation{Signature: "C08/proxy-sent-undecodable-frame/" + k.class(), Detail: fmt.Sprintf("%s: host %d could not decode a frame the proxy sent on connection %d (stream %d): %s", k.key(), e.Host, e.Conn, e.St, strconv.Quote(clipStr(string(e.Body), 200))), Scenario: scenario})
+		}
 		if e.K == "recv" && primitive.OpCode(e.Op) == primitive.OpCodePrepare {
 			reprep++
 			if _, ok := waitingPrepare[e.Conn]; ok {
@@ -327,6 +332,13 @@ func runC08(c *Ctx) {
 		c08Case{Hosts: 2, Conns: 1, Forget: []int{1, 2}, Comp: "", PrepComp: "", Ver: 3, PrepVer: 4, Kind: KExecute, Reprep: "ok", Idem: true},
 		c08Case{Hosts: 2, Conns: 1, Forget: []int{1, 2}, Comp: "", PrepComp: "", Ver: 4, PrepVer: 3, Kind: KExecute, Reprep: "ok", Idem: true},
 	)
+	// prepared in one version family, executed in another whose PREPARE body differs (v5 and DSEv2 add a flags field), with
+	// the first re-prepare failing so that the statement is re-prepared a second time from the cache
+	for _, vv := range [][2]int{{4, 5}, {5, 4}, {0x41, 0x42}, {0x42, 4}, {3, 5}} {
+		for _, rp := range []string{"ok", "error", "drop"} {
+			cases = append(cases, c08Case{Hosts: 3, Conns: 1, Forget: []int{1, 2}, Ver: vv[1], PrepVer: vv[0], Kind: KExecute, Reprep: rp, Idem: true})
+		}
+	}
 	// re-prepare fails or loses its connection on the first forgetful host
 	for _, rp := range []string{"error", "drop"} {
 		for _, idem := range []bool{true, false} {
@@ -624,4 +636,11 @@ func c08OddStatements(c *Ctx, idx int) {
 	}
 	r.Obs("odd_statement_cases", 1)
 	r.NonTrivial(key)
+}
+
+func clipStr(s string, n int) string {
+	if len(s) > n {
+		return s[:n] + "..."
+	}
+	return s
 }
